@@ -316,6 +316,35 @@ pub fn run_c07(rep: &mut Report, thorough: bool) {
     );
     rep.stage("arith", "validated flow: 7 sequence numbers x 7 payload lengths x data offsets 5..15 (TCP options); FIN|ACK acknowledgement high half over all 65536 values", total, t0);
     ack_neighbourhood(&s, rep, "C07");
+    sibling_bfs(&s.cfg, rep, "bfs-c07-sibling-destinations", thorough);
+}
+
+/// Sibling flows: same client address and both ports, different destination address (and the
+/// IPv6 counterpart): a small BFS with each flow's data segments acknowledging its own and the
+/// sibling's cookie.
+pub fn sibling_bfs(cfg: &Cfg, rep: &mut Report, stage: &str, thorough: bool) {
+    let a = flow4(40000, 80);
+    let mut e = flow4(40000, 80);
+    e.sip = srv4b();
+    let a6 = flow6(40000, 80);
+    let mut e6 = flow6(40000, 80);
+    e6.sip = srv6b();
+    let fl = vec![("A".to_string(), a), ("E".to_string(), e), ("A6".to_string(), a6), ("E6".to_string(), e6)];
+    let ck = match learn_cookies(cfg, &fl.iter().map(|x| x.1.clone()).collect::<Vec<_>>()) {
+        Ok(c) if c.len() == 4 => c,
+        _ => {
+            rep.extra.insert(format!("{}_skipped", stage), serde_json::json!("cookies of the sibling flows could not be learned"));
+            return;
+        }
+    };
+    let s = Setup { cfg: cfg.clone(), flows: fl, cookies: ck };
+    let mut ev: Vec<Event> = Vec::new();
+    for (tag, f) in &s.flows {
+        ev.extend(tcp_events(tag, f, s.cookies[&key_of(f)], false).into_iter().filter(|e| e.name.contains("data-http-ack=cookie+1") || e.name.contains("data-http-ack=0") || e.name.ends_with(":syn") || e.name.ends_with(":rst")));
+    }
+    add_cross_acks(&mut ev, &s);
+    let o = BfsOpts { stage: stage.into(), max_depth: if thorough { 4 } else { 3 }, max_states: 40000, abstract_acc: true, differential: false };
+    bfs::bfs(&s.cfg, &ev, &s.cookies, &o, rep);
 }
 
 /// Acknowledgement numbers around the cookie on a flow WITHOUT state: every value of the low half
@@ -461,6 +490,18 @@ pub fn run_c08(rep: &mut Report, thorough: bool) {
     }
     add_cross_acks(&mut events, &s);
     events.extend(noise_events());
+    // frames the link layer must discard (foreign destination MAC) that would otherwise be valid
+    // data of flow A: they are not "accepted data segments" and must leave no trace
+    {
+        let (ta, fa) = &s.flows[0];
+        let ok = s.cookies[&key_of(fa)].wrapping_add(1);
+        let mut g = fa.clone();
+        g.smac = [0x02, 0x99, 0x99, 0x99, 0x99, 0x99];
+        let half = HTTP_REQ.len() / 2;
+        for (n, fr) in [("foreign-mac-half1", g.tcp(1000, ok, F_PSH | F_ACK, &HTTP_REQ[..half])), ("foreign-mac-whole", g.tcp(1000, ok, F_PSH | F_ACK, HTTP_REQ)), ("foreign-mac-syn", g.tcp(7, 0, F_SYN, b""))] {
+            events.push(Event { name: format!("noise:{}:{}", ta, n), frame: fr, flow: None, is_data: false });
+        }
+    }
     let o = BfsOpts {
         stage: "bfs-c08".into(),
         max_depth: if thorough { 7 } else { 5 },
@@ -882,6 +923,7 @@ pub fn run_c09(rep: &mut Report, thorough: bool) {
     );
     rep.stage("growth-once", "200 valid data segments on one flow: table size stays 1", 200, t0);
     ack_neighbourhood(&s, rep, "C09");
+    sibling_bfs(&s.cfg, rep, "bfs-c09-sibling-destinations", thorough);
     // many validated flows in ONE table: size == number of flows validated so far (no pruning, no
     // cap, no wrap of a narrow counter), and afterwards every flow still owns its partial request
     let t0 = std::time::Instant::now();
